@@ -77,11 +77,34 @@ def check(case):
     from synkit.CRN.Petri import semiflows
 
     net = ec.parse_net(case)
-    names = ec.SPECIES
     scheme = SCHEMES[zlib.crc32(case.encode()) % 3]
     rules = scheme[0][: len(net)] if scheme[0] else None
     ids = scheme[1][: len(net)] if scheme[1] else None
     H = ec.build_hypergraph(net, rules=rules, ids=ids)
+    return judge(H, net, rules)
+
+
+def check_edit(case):
+    """analyse, edit the same object in place, analyse again"""
+    from mc import edit_layer as el
+
+    net = ec.parse_net(case["net"])
+    H = ec.build_hypergraph(net)
+    judge(H, net, None)
+    net2 = el.apply_edit(H, net, case["edit"])
+    if not net2:
+        return Outcome(skipped="network_became_empty")
+    out = judge(H, net2, None)
+    for f in out.fails:
+        f.tag = "after_edit_" + f.tag
+    return out
+
+
+def judge(H, net, rules):
+    from synkit.CRN.Props import stoich
+    from synkit.CRN.Petri import semiflows
+
+    names = ec.SPECIES
     used, S = exact_S(net, names)
     ns, nr = len(used), len(net)
     fails = []
@@ -158,7 +181,12 @@ def check(case):
 
 
 def subchecks(tier, seed):
-    return [Sub("networks", gen, check, key=lambda c: c, rule=RULE[tier])]
+    from mc import edit_layer as el
+
+    return [
+        Sub("networks", gen, check, key=lambda c: c, rule=RULE[tier]),
+        Sub("edited", lambda t, s: el.gen_edits(t), check_edit, key=lambda c: f"{c['net']} / {c['edit']}", rule="analyse, edit in place (replace a reaction under the same id / remove a species), analyse again; all such edits of every 2-reaction unit-coefficient network up to permutation (quick: 1 in 4 of the replacements)"),
+    ]
 
 
 def run(tier, seed):
